@@ -111,23 +111,28 @@ def g_body(body) -> str:
     return g_list(g_node(n) for n in body)
 
 
+MODES = ("strict", "warn", "lax")
+_G_MODE = {"strict": "Strict", "warn": "Warn", "lax": "Lax"}
+
+
 class Limits:
-    """One configuration of the five limits (None = not configured; depth/nesting default to 30)."""
+    """One configuration: the five limits (None = not configured; depth/nesting default to 30) and the mode."""
 
-    __slots__ = ("loop", "out", "ns", "depth", "nest")
+    __slots__ = ("loop", "out", "ns", "depth", "nest", "mode")
 
-    def __init__(self, loop=None, out=None, ns=None, depth=DEFAULT_DEPTH, nest=DEFAULT_NEST):
-        self.loop, self.out, self.ns, self.depth, self.nest = loop, out, ns, depth, nest
+    def __init__(self, loop=None, out=None, ns=None, depth=DEFAULT_DEPTH, nest=DEFAULT_NEST, mode="strict"):
+        self.loop, self.out, self.ns, self.depth, self.nest, self.mode = loop, out, ns, depth, nest, mode
 
     def key(self):
-        return (self.loop, self.out, self.ns, self.depth, self.nest)
+        return (self.loop, self.out, self.ns, self.depth, self.nest, self.mode)
 
     def as_dict(self):
-        return {"loop": self.loop, "out": self.out, "ns": self.ns, "depth": self.depth, "nest": self.nest}
+        return {"loop": self.loop, "out": self.out, "ns": self.ns, "depth": self.depth, "nest": self.nest, "mode": self.mode}
 
     @staticmethod
     def from_dict(d):
-        return Limits(d.get("loop"), d.get("out"), d.get("ns"), d.get("depth", DEFAULT_DEPTH), d.get("nest", DEFAULT_NEST))
+        return Limits(d.get("loop"), d.get("out"), d.get("ns"), d.get("depth", DEFAULT_DEPTH), d.get("nest", DEFAULT_NEST),
+                      d.get("mode", "strict"))
 
     def replace(self, **kw):
         d = self.as_dict()
@@ -140,7 +145,8 @@ class Limits:
 
 
 def g_case(lim: Limits, main, sizes) -> str:
-    return f"{{| c_lim := {lim.gallina()}; c_main := {g_body(main)}; c_sizes := {g_list(g_Z(z) for z in sizes)} |}}"
+    return (f"{{| c_mode := {_G_MODE[lim.mode]}; c_lim := {lim.gallina()}; c_main := {g_body(main)}; "
+            f"c_sizes := {g_list(g_Z(z) for z in sizes)} |}}")
 
 
 def g_limits(lim: "Limits") -> str:
@@ -148,7 +154,11 @@ def g_limits(lim: "Limits") -> str:
 
 
 def g_run(lim: "Limits", sizes) -> str:
-    """(limits, sizes) pair, compact when at most one limit is configured."""
+    """(mode, (limits, sizes)), compact when at most one limit is configured."""
+    return {"strict": "InS", "warn": "InW", "lax": "InL"}[lim.mode] + " " + _g_run(lim, sizes)
+
+
+def _g_run(lim: "Limits", sizes) -> str:
     z = g_list(g_Z(v) for v in sizes)
     set_ = [(k, v) for k, v in (("loop", lim.loop), ("out", lim.out), ("ns", lim.ns)) if v is not None]
     if lim.depth != DEFAULT_DEPTH:
@@ -202,7 +212,7 @@ class Sweeps:
         bad_groups = len(mm)
         for gi in mm[:6]:
             nest, printed, runs = groups[gi]
-            c2 = [f"(Build_case {g_limits(lim)} {g_body(nest)} {g_list(g_Z(z) for z in sizes)})" for lim, sizes, _, _ in runs]
+            c2 = [f"(Build_case {_G_MODE[lim.mode]} {g_limits(lim)} {g_body(nest)} {g_list(g_Z(z) for z in sizes)})" for lim, sizes, _, _ in runs]
             e2 = [g_dobs(obs) for _, _, obs, _ in runs]
             for ri in ck.coq_mismatches(f"{name}_g{gi}", IMPORTS, "run_digest", "dobs_eqb", "case", "dobs", c2, e2, chunk=2000):
                 lim, sizes, obs, explained = runs[ri]
@@ -271,8 +281,8 @@ def _template_class():
                 rec["sizes"].append(sys.getsizeof(val, 1))
                 try:
                     super().assign(key, val)
+                    rec["ns"].append(self.get_size_of_locals())  # the engine's figure after a successful assignment
                 finally:
-                    rec["ns"].append(self.get_size_of_locals())
                     # measured independently of the engine's bookkeeping: the local namespaces of this context
                     # and of every context it was copied from
                     total, c = 0, self
@@ -300,8 +310,10 @@ def make_env(lim: Limits, parts):
         "block_nesting_limit": lim.nest,
         "template_class": _template_class(),
     }
+    from liquid import Mode
+
     cls = type("VerifEnv", (Environment,), attrs)
-    env = cls(loader=DictLoader(dict(parts)))
+    env = cls(loader=DictLoader(dict(parts)), tolerance={"strict": Mode.STRICT, "warn": Mode.WARN, "lax": Mode.LAX}[lim.mode])
     ex.add_tags(env)
     env.verif_rec = {"sizes": [], "ns": [], "true": []}
     return env
@@ -312,9 +324,13 @@ def run_impl(main, lim: Limits, use_async: bool, printed=None, want_true=False):
     src, parts, data = printed or to_source(main)
     env = make_env(lim, parts)
     rec = env.verif_rec
+    import warnings
+
     try:
-        t = env.from_string(src)
-        out = run_async(t.render_async(**data)) if use_async else t.render(**data)
+        with warnings.catch_warnings():
+            warnings.simplefilter("ignore")
+            t = env.from_string(src)
+            out = run_async(t.render_async(**data)) if use_async else t.render(**data)
         obs = ("out", out, list(rec["ns"]) if lim.ns is not None else [])
     except Exception as e:  # noqa: BLE001
         obs = ("err", classify(e))
@@ -368,6 +384,20 @@ def max_leaf_product(body, prod=1):
     return best
 
 
+def leaf_count_within(body, limit, mult=1, prod=1):
+    """Number of 'text' executions of an unlimited render whose product of enclosing lengths is <= limit."""
+    total = 0
+    for n in body:
+        k = n[0]
+        if k == "text":
+            total += mult if prod <= limit else 0
+        elif k in REPEATING:
+            total += leaf_count_within(n[2], limit, mult * n[1], prod * n[1])
+        elif body_of(n) is not None:
+            total += leaf_count_within(body_of(n), limit, mult, prod)
+    return total
+
+
 def utf8(s: str) -> int:
     return len(s.encode("utf-8"))
 
@@ -415,6 +445,22 @@ def gen_tree(rng, maxdepth=3, lengths=(0, 1, 2, 3), depth=0, no_include=False, w
             out.append((k, sub()))
         else:  # render, call
             out.append((k, sub(True)))
+    return normalize(out) if depth == 0 else out
+
+
+def normalize(nest):
+    """Adjacent literal texts are ONE content node of the parsed template (one write): merge them, recursively."""
+    out = []
+    for n in nest:
+        k = n[0]
+        if k == "text" and out and out[-1][0] == "text":
+            out[-1] = ("text", out[-1][1] + n[1])
+        elif k in BODY1:
+            out.append((k, normalize(n[1])))
+        elif k in BODY2:
+            out.append((k, n[1], normalize(n[2])))
+        else:
+            out.append(tuple(n))
     return out
 
 
